@@ -473,11 +473,23 @@ Definition class_query (s : sinst) (k : qkind) : obs :=
             else match s_model s with Some m => ObsKde QLogPdf m None | None => ObsErr AttributeErr end
         | QPdf | QSample =>
             match s_model s with Some m => ObsKde k m None | None => ObsErr AttributeErr end
-        | QCdf | QPpf =>
+        | QCdf =>
+            (* cumulative_distribution reads self._model first (`self._model.covariance[0, 0]`), then self._get_bounds() *)
             match s_model s, s_params s with
             | None, _ => ObsErr AttributeErr
             | Some m, None => ObsErr TypeErr
             | Some m, Some p => if has_key "dataset" p then ObsKde k m (Some p) else ObsErr KeyErr
+            end
+        | QPpf =>
+            (* percent_point calls self._get_bounds() (`self._params['dataset']`) BEFORE the solver evaluates the closure that
+               reads self._model: with _params None it is the TypeError that is raised, also when there is no _model
+               (checked on the library; generated from the AST: Props/C19_kde.v, C19_bridge3_kde_ppf) *)
+            match s_params s with
+            | None => ObsErr TypeErr
+            | Some p =>
+                if has_key "dataset" p then
+                  match s_model s with Some m => ObsKde k m (Some p) | None => ObsErr AttributeErr end
+                else ObsErr KeyErr
             end
         end
     | f => match s_params s with Some p => ObsScipy k f p | None => ObsErr TypeErr end
